@@ -34,7 +34,8 @@
 EXTENDS FontCycleOps
 
 CONSTANTS Source,   \* "built" | "tables"
-          Scale     \* "small" | "full": size of the enumerated domains
+          Scale,    \* "small" | "full": size of the enumerated domains
+          Reader    \* "asis": the reader of the pinned tree | "repaired": with proposed-fixes/C01-2
 
 ---------------------------------------------------------------------------
 (* Enumerated domains *)
@@ -45,7 +46,7 @@ Widths  == IF Full THEN {0, 3, 5} ELSE {5}
 Angles  == IF Full THEN {0, -12582912, 5, 1605} ELSE {0, -12582912, 1605}
                                         \* 0, -12 deg (exact), rounds to 0, inexact in 16.16
 Vers    == IF Full THEN {65602, 69632} ELSE {65602}   \* 1.001007, 1.0625 (tie)
-TimesC  == IF Full THEN {"zero", "t", "t+ns"} ELSE {"zero", "t+ns"}
+TimesC  == {"zero", "t+ns"}
 TimesM  == {"zero", "t"}
 Uls     == {-263}
 Kinds   == {"glyf", "cff"}
@@ -103,7 +104,8 @@ Write == /\ stage \in {0, 2, 4}
          /\ UNCHANGED <<font, g1>>
 
 Read == /\ stage \in {1, 3}
-        /\ font' = ReadSpec(file) /\ stage' = stage + 1
+        /\ font' = (IF Reader = "repaired" THEN ReadSpecRepaired(file) ELSE ReadSpec(file))
+        /\ stage' = stage + 1
         /\ g1' = IF stage = 1 THEN font' ELSE g1
         /\ UNCHANGED <<file, b2>>
 
